@@ -589,7 +589,16 @@ func GenLSpecNG(r *Rng, overlap bool) *LSpec {
 	leads := []int{'/', '<', '[', '"', '#', '{'}
 	n := 1 + r.Intn(3)
 	for i := 0; i < n; i++ {
-		s.Modes[0].Rules = append(s.Modes[0].Rules, &LRule{Expr: ngRule(r, leads[i])})
+		ru := &LRule{Expr: ngRule(r, leads[i])}
+		// the non-greedy rule as a token, as an accumulating @frag (no terminal action), as @frag @discard
+		switch r.Intn(6) {
+		case 0, 1:
+			ru.Frag = true
+		case 2:
+			ru.Frag = true
+			ru.Acts = []LAct{{Kind: "discard"}}
+		}
+		s.Modes[0].Rules = append(s.Modes[0].Rules, ru)
 	}
 	// greedy neighbours
 	s.Modes[0].Rules = append(s.Modes[0].Rules, &LRule{Expr: &LExpr{Alts: [][]*LTerm{{{Kind: LClass, Class: &LClassExpr{Items: []RRange{{'a', 'z'}}}, Card: "+"}}}}})
